@@ -4,7 +4,7 @@
    GV.Pack.QuoteModel (strconv.Quote as used by format.go's quote(); Lua string
    literals per manual 3.1), GV.Pack.NumStrModel. *)
 From Coq Require Import ZArith List.
-From GV Require Import Pack.NumStrModel Pack.Model Pack.Bytes Pack.IntRound Pack.QuoteModel Pack.QuoteProofs.
+From GV Require Import Pack.NumStrModel Pack.Model Pack.Bytes Pack.IntRound Pack.Lockstep Pack.QuoteModel Pack.QuoteProofs.
 Import ListNotations.
 Open Scope Z_scope.
 
@@ -13,21 +13,44 @@ Theorem C17_dec_enc : forall lt k v, dec lt (enc lt k v) = v mod 256 ^ Z.of_nat 
 Proof. exact dec_enc. Qed.
 Print Assumptions C17_dec_enc.
 
-(* Integer core of unpack∘pack: for every width k = 1..16, both byte orders, every int64 v
-   that packInt accepts (i[k]; b h l j are the k = 1, 2, 8 instances), with any bytes
-   written before and any bytes following, readVarInt at the position where packInt
-   started returns exactly v and stops exactly where packInt stopped. *)
-Theorem C17_unpack_pack_int_partial : forall (k : nat) v s s' t us kont,
+(* Integer core of unpack∘pack: for every width k = 1..16, both byte orders, every int64 v that
+   packInt (resp. packUint) accepts, what is written is read back by readVarInt (readVarUint)
+   as exactly v, consuming exactly the bytes written, whatever follows. *)
+Theorem C17_int_roundtrip : forall (k : nat) v s s',
   (1 <= k <= 16)%nat -> - H <= v < H ->
   packInt (Z.of_nat k) v s = PCont s' ->
-  little (u_rd us) = little (p_rd s) -> u_j us = len (p_w s) ->
-  readVarInt (p_w s' ++ t) (Z.of_nat k) us kont = kont v (u_set_j us (len (p_w s'))).
+  exists bs, s' = p_write s bs /\
+    forall us t kont, little (u_rd us) = little (p_rd s) -> u_rest us = bs ++ t ->
+      readVarInt (Z.of_nat k) us kont = kont v (u_adv us (len bs)).
 Proof. exact int_roundtrip. Qed.
-Print Assumptions C17_unpack_pack_int_partial.
+Print Assumptions C17_int_roundtrip.
 
-(* load(%q s) = s is false of the code as it stands (any IsPrint that rejects U+200B) *)
-Theorem C17_quote_load_string_refuted :
-  forall is_print, is_print 8203 = false ->
-  exists s, lua_string_literal (quote is_print s) <> Some s.
-Proof. exact quote_load_string_refuted. Qed.
-Print Assumptions C17_quote_load_string_refuted.
+Theorem C17_uint_roundtrip : forall (k : nat) v s s',
+  (1 <= k <= 16)%nat -> - H <= v < H ->
+  packUint (Z.of_nat k) v s = PCont s' ->
+  exists bs, s' = p_write s bs /\
+    forall us t kont, little (u_rd us) = little (p_rd s) -> u_rest us = bs ++ t ->
+      readVarUint (Z.of_nat k) us kont = kont v (u_adv us (len bs)).
+Proof. exact uint_roundtrip. Qed.
+Print Assumptions C17_uint_roundtrip.
+
+(* Whole-format round trip over the option loop (lockstep of PackValues and UnpackString):
+   for every format string and every tuple of int64 / 64-bit-float values that pack accepts,
+   unpack of the packed string returns the packed values and the position after the last byte.
+   _partial: every option character the packer dispatches on must be one of
+   < > = ! b B h H l j L J T i I d n x X or space (all widths, alignment, X included);
+   the string options s z c and the float32 option f are not yet covered. *)
+Theorem C17_unpack_pack_partial : forall fmt vs out packed,
+  Forall val_ok vs ->
+  dispatched_ok (S (length fmt)) (mkP rd0 fmt vs [] []) ->
+  pack fmt vs = POk out packed ->
+  unpack fmt out 0 = UOk packed (len out).
+Proof. exact unpack_pack_partial. Qed.
+Print Assumptions C17_unpack_pack_partial.
+
+(* The round-1 witness against load(%q s) = s (U+200B) round-trips on the repaired quoting,
+   whatever unicode.IsPrint answers for it.  (The universal quote_load_string is not proved yet.) *)
+Theorem C17_quote_load_former_witness :
+  forall is_print, lua_string_literal (quote is_print [226; 128; 139]) = Some [226; 128; 139].
+Proof. exact quote_load_u200b. Qed.
+Print Assumptions C17_quote_load_former_witness.
